@@ -33,7 +33,8 @@ func (f rtFunc) RoundTrip(r *http.Request) (*http.Response, error) { return f(r)
 type ClientCfg struct {
 	Mode      websocket.CompressionMode
 	Threshold int
-	RespExt   string // Sec-WebSocket-Extensions value of the response ("" = header absent)
+	RespExt   string   // Sec-WebSocket-Extensions value of the response ("" = header absent)
+	RespExts  []string // if non-nil: one header line per element (RespExt is ignored)
 	Protos    []string
 	RespProto string
 	Header    http.Header
@@ -60,7 +61,11 @@ func Dial(ctx context.Context, cfg ClientCfg) (*Client, error) {
 		h.Set("Connection", "Upgrade")
 		h.Set("Upgrade", "websocket")
 		h.Set("Sec-WebSocket-Accept", AcceptKey(r.Header.Get("Sec-WebSocket-Key")))
-		if cfg.RespExt != "" {
+		if cfg.RespExts != nil {
+			for _, v := range cfg.RespExts {
+				h.Add("Sec-WebSocket-Extensions", v)
+			}
+		} else if cfg.RespExt != "" {
 			h.Set("Sec-WebSocket-Extensions", cfg.RespExt)
 		}
 		if cfg.RespProto != "" {
